@@ -707,6 +707,12 @@ func execGen(env *sim.Env, c GenCase, prop string) CaseResult {
 	mod := filepath.Join(root, "mod")
 	drv := filepath.Join(filepath.Dir(root), "driver")
 	_, berr, err := runTool(mod, 5*time.Minute, "go", "build", "-o", drv, "./cmd/driver")
+	if err != nil && c.Meta.GetterConv {
+		// ":conv plain getter()" with an error-returning getter: does not compile on the
+		// pinned tree (C01: not applicable here); explored only on a tree where it does
+		st.Inc("n:getterconv_worlds_that_do_not_compile")
+		return res
+	}
 	if err != nil {
 		st.Inc("n:worlds_that_do_not_compile")
 		vs := attributeDiagnostics(root, c.Meta, berr, st)
@@ -818,7 +824,7 @@ func runGen(cfg Config, args []string, prop string) int {
 	}
 	if prop == "C07" {
 		// a handful of worlds whose converter / getter returns a concrete error type
-		nMisfit = cfg.N(6, 60)
+		nMisfit = cfg.N(8, 80)
 	}
 	b := &Batch[GenCase]{Property: prop, Level: level, Cfg: cfg, Env: env, N: n + nMisfit,
 		Gen: func(i int) GenCase {
@@ -826,7 +832,7 @@ func runGen(cfg Config, args []string, prop string) int {
 			kind := "normal"
 			switch {
 			case i >= n && prop == "C07":
-				kind = fmt.Sprintf("errshape=%d", i-n)
+				kind = fmt.Sprintf("errshape=%d", (i-n)%4) // 0..2 concrete error type, 3 getter into a plain converter
 			case i >= n:
 				// every kind x {0,1,2 additional arguments}; every (kind, bystander) pair
 				// occurs once per round of three
